@@ -16,7 +16,8 @@ def run(ctx):
         fscklib.run_images(ctx, ok_drv, "conc", ["conc"] + sd + (["-hists", "40", "-clients", "5", "-ops", "150"] if t else ["-hists", "8", "-clients", "4", "-ops", "100"]), R, True)
         fscklib.run_images(ctx, ok_drv, "crash-meta", ["crash"] + sd + ["-mix", "meta"] + (["-workloads", "12", "-ops", "60", "-images", "800"] if t else ["-workloads", "2", "-ops", "40", "-images", "150"]), R, True)
         fscklib.run_images(ctx, ok_drv, "crash-free", ["crash"] + sd + ["-mix", "free", "-disk", "40000", "-ops", "22"] + (["-workloads", "6", "-images", "600"] if t else ["-workloads", "1", "-images", "120"]), R, True)
-        fscklib.run_images(ctx, ok_drv, "reclaim", ["reclaim"] + sd + (["-hists", "9", "-rounds", "5"] if t else ["-hists", "2", "-rounds", "2"]), R, True)
+        lines = fscklib.run_images(ctx, ok_drv, "reclaim", ["reclaim"] + sd + (["-hists", "9", "-rounds", "5"] if t else ["-hists", "3", "-rounds", "2"]), R, True)
+        fscklib.oracle_lines(ctx, lines, "C04", "harness reclaim -seed %d (full-disk scenarios: read-back after the block of a failed write was reused)" % ctx.seed)
     vlib.finish(
         ctx, "proof",
         "PARTIAL (that every history and crash leads to a well-formed disk is decided on sampled runs). Lean theorem fsck_sound: the executable structure checker accepts an image only "
